@@ -2,9 +2,9 @@ SPECIFICATION Spec
 CONSTANTS
   NWorkers = 2
   MaxChunks = 2
-  Protocol = "fixed"
+  Protocol = "fixed2"
   FaultTasks = 2
-  SetupIds = {"inplace2", "separate", "bundle", "bundleinplace", "sync", "syncinplace", "alias", "hard", "overwrite", "bak"}
+  SetupIds = {"inplace2", "separate", "bundle", "bundleinplace", "sync", "syncinplace", "alias", "hard", "overwrite", "bak", "bakinput"}
 INVARIANTS NeverLost ReadOnlyUntouched OthersUntouched DoneClean NoLeftoverBackup DestinationsComplete NoDescriptorLeak
 PROPERTY BakRemovedOnlyAfterComplete
 CHECK_DEADLOCK FALSE
